@@ -16,8 +16,17 @@ def gen(ctx, path):
         if A in HWB:
             pts = [p for p in pts if p[1] + p[2] <= 1.0]
         if ctx.quick and len(pts) > 150:
-            corners = [p for p in pts if all(r is None or v in (r[0], r[1], 0.0) for v, r in zip(p, NODES[A]))]
-            pts = rnd.sample(pts, 150) + corners[:60]
+            # always keep the degenerate boundary: every component on a bound, zero, or a billionth inside a bound,
+            # for a few hues; thin only the interior of the lattice
+            def edge(v, r):
+                if r is None:
+                    return v in (0.0, 60.0, 180.0, 359.999)
+                lo, hi = r
+                t = 1e-9 * (hi - lo)
+                return v in (lo, hi, 0.0) or abs(v - (lo + t)) < t / 2 or abs(v - (hi - t)) < t / 2
+            edges = [p for p in pts if all(edge(v, r) for v, r in zip(p, NODES[A]))]
+            rest = [p for p in pts if p not in set(edges)]
+            pts = edges + rnd.sample(rest, min(len(rest), 90))
         for p in pts:
             for B in ORDER:
                 if A != B:
